@@ -605,7 +605,12 @@ func (l *Linter) lintReturnStatement(stmt *ast.ReturnStatement, ctx *context.Con
 		return types.NeverType
 	}
 
-	if !expectState((stmt.ReturnExpression).String(), expects...) {
+	// Do not use String() of the expression because it includes leading/trailing comments
+	state := stmt.ReturnExpression.GetMeta().Token.Literal
+	if ident, ok := stmt.ReturnExpression.(*ast.Ident); ok {
+		state = ident.Value
+	}
+	if !expectState(state, expects...) {
 		l.Error(InvalidReturnState(
 			stmt.ReturnExpression.GetMeta(), context.ScopeString(ctx.Mode()), stmt.ReturnExpression.String(), expects...,
 		).Match(RESTART_STATEMENT_SCOPE))
